@@ -20,6 +20,18 @@ CLAIMED = {
  'C08': dict(text="Theorems C08_cut_reported, C08_boundary_eof, C08_boundary_error, C08_packet_needs_all_bytes: every proper prefix of every frame, under every schedule and failure style, yields (nil, err) with errors.Is(err, E) for a transport error and io.EOF on a frame boundary. Correspondence: every cut offset of generated frames through scripted readers.",
              note="As C07: modelled reader contract; %w wrapping is modelled as Err.io.",
              technique="Lean 4 theorem over a modelled io.Reader contract + differential correspondence", ref="§7 C08"),
+ 'C12': dict(text="Theorems C12_connect_flags (over every setter history from NewConnect: user-name/password flags iff non-empty, will flag iff a will is attached, will QoS/retain mirror the message, reserved bit clear), C12_connect_step, C12_clean_start, C12_session_present(+_frame), C12_publish_dup_retain, C12_publish_qos; bit facts are complete kernel-checked enumerations of the 256 flag bytes. Scalar setters are record updates in the model; correspondence compares every accessor after every step of generated histories.",
+             note="The model's plain setters are last-write-wins by construction; that they match the Go setters is established by differential testing of histories only.",
+             technique="Lean 4 invariant by induction over setter histories + exhaustive bit tables + differential correspondence", ref="§7 C12"),
+ 'C15': dict(text="Theorems C15_enc_length/shape/minimal, C15_mem_roundtrip, C15_stream_roundtrip (any schedule), C15_decoders_agree (every byte string), C15_reject_long_mem/stream, C15_reject_truncated, C15_no_overflow: all by induction for every value and every byte string. Correspondence through the verif hooks against the model and a closed-form oracle; thorough tier adds an exhaustive Go sweep.",
+             note="Nat arithmetic in the model; C15_no_overflow shows the Go uint arithmetic cannot wrap. Hook wrappers (build tag verif) are trusted to call the unexported codec unchanged.",
+             technique="Lean 4 theorems by strong induction + differential correspondence through build-tag hooks", ref="§7 C15"),
+ 'C16': dict(text="Theorems C16_dispatch (complete enumeration of the 256 first bytes by decide +kernel), C16_decoded, C16_undefined, C16_publish_flags, C16_first_byte_back: type by upper nibble, first byte preserved by decoding and reproduced by encoding. Correspondence: all 256 first bytes x generated bodies.",
+             note="Model/code tie by exhaustive differential run over the 256 first bytes.",
+             technique="Lean 4 theorems (finite table by kernel evaluation, structural lemmas) + exhaustive correspondence", ref="§7 C16"),
+ 'C17': dict(text="Theorems C17_publish, C17_filter, C17_subscribe (iff-characterisations of WellFormed), C17_string_publish/subscribe (the malformed suffix is appended exactly when WellFormed reports an error). Correspondence: cross product of the predicate inputs judged by an independent predicate in the harness.",
+             note="String() text is modelled for the fmt verbs used; see DESIGN.md §4.",
+             technique="Lean 4 theorems by case analysis + differential correspondence with an independent predicate", ref="§7 C17"),
 }
 
 def main():
